@@ -422,6 +422,23 @@ def range_hint(t):
     return _range_hint.get(t.id)
 
 
+def forall(names, body):
+    body = truth(body)
+    if body.op == 'bconst': return body
+    return _mk('forall', (body,), 'b', tuple(names))
+
+
+def exists(names, body):
+    body = truth(body)
+    if body.op == 'bconst': return body
+    return _mk('exists', (body,), 'b', tuple(names))
+
+
+def ufb(name, *args):
+    """uninterpreted predicate"""
+    return ne(uf(name, *args), const(0))
+
+
 # spec-level helpers -------------------------------------------------------------------------
 def M(x, n):
     """x mod 2**n"""
@@ -495,6 +512,8 @@ def rebuild(n, args):
     if op == 'and': return band_(*args)
     if op == 'or': return bor_(*args)
     if op == 'aite': return ite(*args)
+    if op == 'forall': return forall(n.val, args[0])
+    if op == 'exists': return exists(n.val, args[0])
     return _REBUILD[op](*args)
 
 
@@ -502,6 +521,8 @@ _REBUILD.update(add=add, sub=sub, mul=mul, neg=neg, fdiv=fdiv, mod=mod, pow2=pow
                 bxor=bxor, bnot=bnot, shl=shl, shr=shr, ite=ite, sel=sel, store=store, eq=eq, ne=ne,
                 lt=lt, le=le, gt=gt, ge=ge, aeq=aeq, iff=iff)
 _REBUILD['not'] = not_
+_REBUILD['forall'] = lambda b: b
+_REBUILD['exists'] = lambda b: b
 
 
 # ------------------------------------------------------------------ native evaluation
